@@ -259,6 +259,11 @@ func (c *Ctx) funcValues(hv hVal, depth int) []funcVal {
 	case *ssa.Phi:
 		var out []funcVal
 		for i, e := range x.Edges {
+			if IsNilConst(e) && len(x.Edges) > 1 {
+				// a nil function value cannot serve a route (calling it panics): the
+				// error path of a helper that returns (wrapper, error)
+				continue
+			}
 			cond := edgeCond(x.Block().Preds[i], x.Block())
 			for _, fv := range c.funcValues(hVal{e, hv.env}, depth+1) {
 				if cond != "" {
